@@ -73,17 +73,17 @@ PROPS = {
     },
     'C10': {
         'technique': 'Verus contracts on the extracted text of ModelParameter::{mul, mul_add_assign} (IEEE ops uninterpreted); Kani harnesses on VoiceSet::weighted over symbolic parameters with exact-scaling weight constants',
-        'level_text': 'unbounded proof (any weight, any vector length) that one accumulation step yields exactly lhs + weight*rhs per mean/variance/msd component and that mul scales every component; bounded: VoiceSet::weighted folds the voices in order with the given weight vector (2 voices), (1,0) reproduces voice 0, identical voices reproduce the voice',
-        'level_note': 'VoiceSet::weighted itself (iterators held in variables) is outside Verus: its fold over voices is bounded-checked by Kani with weight constants only; which weight vector feeds which quantity in Models is not decided; floats are uninterpreted in Verus (no rounding claims)',
+        'level_text': 'unbounded proof (any weight, any vector length) that one accumulation step yields exactly lhs + weight*rhs per mean/variance/msd component and that mul scales every component; Kani (bit-precise, all parameter values): weights (1,0) return the first parameter set unchanged, (.5,.5) gives p0*.5 + .5*p1, msd presence follows the first voice',
+        'level_note': 'PARTIAL: VoiceSet::weighted itself (iterators held in variables: outside Verus; two Arc<Voice> exhaust 12 GB under CBMC) is NOT decided, i.e. that the fold pairs voice v with weight v in order; which weight vector feeds which quantity in Models is not decided; floats are uninterpreted in Verus (no rounding claims)',
         'verus': ['interp'],
         'assumptions': [], 'trusted_base': [],
-        'not_decided': ['VoiceSet::weighted for more than 2 voices / symbolic weights', 'which weight vector feeds which quantity (Models::duration/stream/gv)', '"up to rounding" for identical voices with arbitrary weights'],
+        'not_decided': ['VoiceSet::weighted: pairing of voices and weights in the fold', 'which weight vector feeds which quantity (Models::duration/stream/gv)', '"up to rounding" for identical voices with arbitrary weights'],
     },
     'C17': {
         'technique': 'Verus contracts on the extracted text of Labels::new and Engine::generator',
-        'level_text': 'unbounded proof that labels given without times get (-1,-1) for every label, that length mismatch is the only error of Labels::new, and that with alignment off the time stamps do not occur in what generator() builds',
-        'level_note': 'PARTIAL: load_from_strings (line splitting, parsers, error mapping) and the four ToLabels impls are not yet under contract; jlabel and f64 parsers are outside any verifier',
-        'verus': ['labels', 'engine'],
+        'level_text': 'unbounded proof that labels given without times get (-1,-1) for every label, that length mismatch is the only error of Labels::new, that the array and owned-vector input forms are exactly the slice form on the same lines (at the condition\'s sampling rate and frame period), and that with alignment off the time stamps do not occur in what generator() builds',
+        'level_note': 'PARTIAL: load_from_strings itself (line splitting, blank-line skip, parsers, error mapping) is not under contract; jlabel and f64 parsers are outside any verifier; unit forms runs with --no-trait-conflicts (Verus internal error on AsRef)',
+        'verus': ['labels', 'engine', 'forms'],
         'assumptions': ['axiom_pair_clone: Clone of (f64, f64) returns an equal pair'],
         'trusted_base': [],
         'not_decided': ['Labels::load_from_strings control flow and error mapping', 'jlabel::Label::from_str / f64::from_str never panic'],
@@ -142,26 +142,26 @@ PROPS = {
         'not_decided': ['zero-mean unit-variance white noise', 'pulse height equals sqrt(T0) numerically (libm)', 'period from log-F0 with clamp to [ln 20, ln 20000] in Vocoder::synthesize', 'linear glide value (p - prev)/fperiod'],
     },
     'C12': {
-        'technique': 'Kani harnesses on MlpgMatrix::par and MlpgGlobalVariance::apply_gv + Verus contract on Engine::generator',
-        'level_text': 'bounded (T = 2): a stream without GV returns exactly solve() whatever the GV weight; with no eligible frame the trajectory is returned unchanged for all symbolic values; unbounded proof that gv_weight[i] reaches stream i only',
+        'technique': 'Verus contracts on the extracted text of MlpgMatrix::par and Engine::generator; Kani harnesses on MlpgGlobalVariance::apply_gv, Models::gv and the switch-expansion hole',
+        'level_text': 'unbounded proof that a stream without GV returns exactly solve() whatever the GV weight, that with GV the optimiser target is GV mean x weight on the solution of the unmodified system, and that gv_weight[i] reaches stream i only; bounded (T = 2, symbolic values): with no eligible frame the trajectory is returned unchanged',
         'level_note': 'PARTIAL: "variance within 20% of the target for >= 100 eligible frames" and monotonicity in the weight are NOT decided (empirical convergence of a damped Newton iteration)',
-        'verus': ['engine'],
+        'verus': ['engine', 'gvpar'],
         'assumptions': [], 'trusted_base': [],
-        'not_decided': ['variance within 20% of gv_weight x GV mean', 'monotone growth with the weight', 'target = GV mean x weight (apply_gv argument)', 'Models::gv switch from gv_off_context'],
+        'not_decided': ['variance within 20% of gv_weight x GV mean', 'monotone growth with the weight', 'Models::gv switch from gv_off_context'],
     },
     'C14': {
-        'technique': 'Kani harnesses on MelCepstrum::postfilter_mcp no-op cases, native contract on Condition::set_beta, Verus contract on Engine::generator',
-        'level_text': 'bounded (order <= 3) but fully symbolic values: beta <= 0 and cepstra with at most two coefficients are left bit-identical; beta is clamped to [0,1] and reaches only Vocoder::new',
-        'level_note': 'PARTIAL: the active branch (scaling of b_k, b_1 compensation, energy renormalisation through b2en with a 576-tap impulse response) is NOT decided',
-        'verus': ['engine'],
+        'technique': 'Verus contract on the extracted text of MelCepstrum::postfilter_mcp (b-domain, floats and mc2b/b2mc/b2en uninterpreted) and on Engine::generator; Kani harnesses for the no-op cases; native contract on Condition::set_beta',
+        'level_text': 'unbounded proof (any order) of the b-domain update: b_k (k>=2) x (1+beta), b_1 - beta*alpha*b_2, b_0 + ln(e1/e2)/2, converted back with b2mc, and of the no-op cases; ring-identity lemma giving c_1 unchanged and c_k x (1+beta); Kani: no-op cases bit-identical for symbolic values; beta is clamped to [0,1] and reaches only Vocoder::new',
+        'level_note': 'PARTIAL: mc2b, b2mc and b2en (576-tap impulse-response energy) are uninterpreted: that b2en is the energy and that the energy is preserved within 1% are NOT decided; the c-domain statement holds in exact arithmetic (lemma over the integers)',
+        'verus': ['engine', 'postfilter'],
         'assumptions': [], 'trusted_base': [],
-        'not_decided': ['c_k (k>=2) multiplied by 1+beta, c_1 unchanged', 'impulse-response energy preserved within 1%'],
+        'not_decided': ['impulse-response energy preserved within 1% (b2en numerics)', 'mc2b / b2mc are the linear maps c <-> b'],
     },
     'C16': {
         'technique': 'Kani frame harness on Condition::set_volume (exp stubbed as an uninterpreted function) + Verus contract on Engine::generator',
         'level_text': 'complete frame proof: set_volume writes the volume field only; unbounded proof that condition.volume reaches Vocoder::new\'s volume argument and nothing else in the pipeline',
-        'level_note': 'PARTIAL: "multiplies every sample by 10^(v/20)" inside Vocoder::synthesize and the dB round trip ln(exp(x)) ~ x are NOT decided (libm; CBMC models are non-deterministic)',
-        'verus': ['engine'],
+        'level_note': 'PARTIAL: "multiplies every sample by 10^(v/20)" inside Vocoder::synthesize and the dB round trip ln(exp(x)) ~ x are NOT decided (libm; CBMC models are non-deterministic); Verus states volume == exp(v*DB) and get_volume == ln(volume)/DB with exp/ln uninterpreted',
+        'verus': ['engine', 'cond'],
         'assumptions': ['exp is a deterministic positive function (stub)'], 'trusted_base': [],
         'not_decided': ['rawdata[i] = x * volume inside Vocoder::synthesize', 'get_volume(set_volume(v)) ~ v', 'DB is the double nearest ln10/20'],
     },
